@@ -58,8 +58,16 @@ package crhttp
 // Debug API: per advertising interface, regenerate the RA with the live
 // forwarding state and render it.
 //@ func (*Handler).interfaces
+// every configured interface is reported unless the request fails
+//@   opt nobreak [C17]
 //@   requires P1: h.state != nil && w != nil && forall(i, 0, len(h.ifaces), ifiCfgOK(h.ifaces[i]))
 //@   assigns everything
 //@   loop 1 invariant L1 [C17,C04]: 0 <= rangeindex + 1 && rangeindex + 1 <= len(h.ifaces) && h.state != nil && w != nil && forall(i, 0, len(h.ifaces), ifiCfgOK(h.ifaces[i])) && len(body.Interfaces) == rangeindex + 1
+//@   ghost local errs Int
+//@   ghost local encs Int
+//@   at call errorf(eh, ew, ef, ea): ghost.errs = ghost.errs + 1
+//@   at call Encode(je, jv): assert J1 [C17]: ghost.errs == 0 && ghost.encs == 0 ; ghost.encs = ghost.encs + 1
+//@   loop 1 invariant L2 [C17]: ghost.errs == 0 && ghost.encs == 0
+//@   ensures E1 [C17]: ghost.errs + ghost.encs == 1
 //@   at call packRA(pra): assert A1 [C17,C04]: pra != nil && pra.RouterLifetime == ite(ghost.fwdVal, iface.DefaultLifetime, 0) && ghost.fwdName == iface.Name && raHeaderFrom(pra, iface)
 //@   opt safety [C17]
